@@ -126,6 +126,17 @@ class ClassInfo:
                 return c.methods[name]
         return None
 
+    def is_abstract(self) -> bool:
+        """Has at least one abstract method that no class in its MRO implements."""
+        names = set()
+        for c in self.mro():
+            names.update(c.methods)
+        for n in names:
+            m = self.lookup(n)
+            if m is not None and m.is_abstract:
+                return True
+        return False
+
     def all_subclasses(self) -> List["ClassInfo"]:
         out = []
 
@@ -582,6 +593,8 @@ def resolve_call(idx: Index, fn: FuncInfo, tenv: TypeEnv, call: ast.Call):
         for c in sorted(cs):
             ci = idx.classes[c]
             for k in [ci] + ci.all_subclasses():
+                if k.is_abstract():
+                    continue  # cannot be instantiated
                 init = k.lookup("__init__")
                 if init and init not in targets:
                     targets.append(init)
